@@ -22,7 +22,7 @@ CHECKS = {
   cat="exploration", ref="DESIGN.md §4 C03",
   technique="structure-aware mutation fuzzing (proptest-generated mutation programs over a corpus extracted from the tree: sample configs, doc snippets, test configs) with an in-target oracle on the returned diagnostic; crash/hang attribution by isolated worker processes; ddmin shrinking; the thorough tier adds coverage-guided byte-level fuzzing (cargo-fuzz / libFuzzer, 16 processes, fresh seed corpus and dictionary extracted from the tree) of the same oracle function",
   text="Each generated text (with its includable files present / missing / empty / malformed / unreadable / included twice) is loaded by the real parser (new_from_str, and new_from_file on scratch directories) on an 8 MiB-stack thread: it must return Ok or a miette diagnostic whose labels lie inside a file that was given, and rendering it (fancy and plain) must return; a panic, abort (stack overflow), or confirmed hang is a violation. Failures are shrunk by deleting sub-expressions. The thorough tier runs 20 M inputs.",
-  note="Bounded domain: text <= 64 KiB, nesting <= ~70; allocation failure under a 6 GiB address-space limit is counted as resource exhaustion (excluded). Nine parser defects found by this check were repaired with fix: commits; their witnesses in regress/C03 are replayed first on every run."),
+  note="Bounded domain: text <= 64 KiB, nesting <= ~70; allocation failure under a 6 GiB address-space limit is counted as resource exhaustion (excluded). Ten parser defects found by this check were repaired with fix: commits; their witnesses in regress/C03 are replayed first on every run."),
 
  "C04": dict(
   cat="exploration", ref="DESIGN.md §4 C04, Appendix A.1/D",
